@@ -572,8 +572,11 @@ func (c *cache) get(nocache bool, ctx context.Context, url string, start, limit 
 	defer verifhook.Release(seg)
 	seg.Lock()
 	defer seg.Unlock()
+	// Callers attach logs, receipts and traces to the blocks they get,
+	// and read them without a lock: every caller gets its own copy and
+	// the cached blocks are never changed.
 	if seg.done {
-		return seg.d, nil
+		return eth.CopyBlocks(seg.d), nil
 	}
 
 	blocks, err := f(ctx, url, start, limit)
@@ -583,7 +586,7 @@ func (c *cache) get(nocache bool, ctx context.Context, url string, start, limit 
 
 	seg.d = blocks
 	seg.done = true
-	return seg.d, nil
+	return eth.CopyBlocks(seg.d), nil
 }
 
 func (c *Client) blocks(ctx context.Context, url string, start, limit uint64) ([]eth.Block, error) {
